@@ -35,6 +35,10 @@ YastnError or - for data that happens to be insensitive - the right value).  Key
   exception:ncon-swap:resolvable-order:pending-swap-at-trace       same, a swap with another tensor's leg pending at a trace
   value:ncon-swap:pending-swap-at-trace                            wrong value, swap pending at a trace step
   value:ncon-swap:{direct,jump,jump-odd}[+trace][:bosonic]         wrong value on any other order (by commands used)
+Family (a): value:swap_gate:{axes,charge}[:fused-*][:lazy], value:swap_gate:bosonic-not-identity, involution:..., result-legs/
+result-charge:..., and exception:swap_gate:charge-given-as-list (labelled probe: the docstring types charge as Sequence[int]).
+Family (c): value:fkron:{fermionic,bosonic,random,single-site}, car:{anticommutator,commutator}:{c,c / c,c+}:{same-site,i<j,i>j},
+car:two-operator-form:*, car:on-site-algebra:*.
 
 Reach is reported through counters derived from the command list that _meta_ncon returns for the very call that was
 executed (parity_sign commands, jumps on third-party tensors = step 1, jumps on the contracted tensors = step 2) and
